@@ -213,6 +213,16 @@ func buildScript(vc *VC, assumes []*Term, final *Term, wantModel bool) string {
 		var tn string
 		outer := false
 		switch {
+		case strings.HasPrefix(k, "H$MD$map[") && srt.Eq(SArr(SRef, SArr(SInt, SBool))):
+			// keys present in an integer-keyed map are values of the key type
+			kt := k[len("H$MD$map["):]
+			if i := strings.Index(kt, "]"); i > 0 {
+				if lo, hi, ok := intRangeByName(kt[:i]); ok {
+					fmt.Fprintf(&sb, "(assert (forall ((r Ref) (k Int)) (! (=> (select (select %s r) k) (and (<= %s k) (<= k %s))) :pattern ((select (select %s r) k)))))\n",
+						smtName(k), mkBig(lo), mkBig(hi), smtName(k))
+				}
+			}
+			continue
 		case strings.HasPrefix(k, "H$E$") && srt.Eq(SArr(SRef, SArr(SInt, SInt))):
 			tn = strings.SplitN(k[4:], "!", 2)[0]
 			outer = true
